@@ -14,3 +14,6 @@ unsigned g_computes, g_can_calls, g_completes, g_nout; _Bool g_can_answer, g_com
 uint32_t g_tv_kind; uint64_t g_tv_hash;       /* ghost: what the last toValue() encoded */
 static inline vbytes bv_to_value(const struct BuildValue *v) { g_tv_kind = v->kind; g_tv_hash = v->commandHash.value; vbytes b; b.ptr = 0; b.len = 0; return b; }
 static inline void ti_complete(struct TaskInterface *ti, vbytes *b, _Bool force) { g_completes++; g_complete_kind = g_tv_kind; g_complete_hash = g_tv_hash; g_complete_force = force; }
+unsigned g_failed_incr, g_deps_calls; _Bool g_deps_ok;
+static inline void ctx_incr_failed(void *ctx) { g_failed_incr++; }
+static inline struct BuildValue bv_failed(void) { struct BuildValue v; v.kind = 3; v.numOutputInfos = 0; v.commandHash.value = 0; return v; }   /* BuildValueKind::FailedCommand == 3 (checked by the contract through the enum) */
